@@ -2,6 +2,7 @@ package main
 
 import (
 	"fmt"
+	"strings"
 	"time"
 
 	g "github.com/bobertlo/gmars"
@@ -197,8 +198,8 @@ func runC04(c *Ctx) {
 			k.Warriors = append(k.Warriors, w)
 			rec.areas = append(rec.areas, [2]int{w.Off % m, l})
 		}
+		var added []*BWarrior
 		setup := func() {
-			var added []*BWarrior
 			for _, w := range k.Warriors {
 				gw, e := s.AddWarrior(&g.WarriorData{Code: toGCode(w.Code), Start: w.Start})
 				if e != nil {
@@ -253,6 +254,33 @@ func runC04(c *Ctx) {
 		if !check("after spawn", true) {
 			return
 		}
+		// reuse: Reset (before anything ran, or after the battle) and the same warriors started again
+		reuse := func(when string) bool {
+			if p, msg := try(func() { s.Reset() }); p {
+				c.Violate("C04:panic:reset:"+panicSite(msg), when+": "+msg, k.describe())
+				return false
+			}
+			if !check("after Reset "+when, true) {
+				return false
+			}
+			for i, w := range added {
+				if w.NeverSpawn {
+					continue
+				}
+				var e error
+				if p, msg := try(func() { e = s.SpawnWarrior(i, g.Address(w.Off)) }); p || e != nil {
+					c.Violate("C04:respawn-after-reset:"+panicSite(msg), fmt.Sprintf("%s: %v %s", when, e, msg), k.describe())
+					return false
+				}
+			}
+			c.Inc("resets_" + strings.ReplaceAll(when, " ", "_"))
+			return check("after Reset "+when+" and respawn", true)
+		}
+		if m <= 4096 && nw <= 4 && r.Chance(1, 6) {
+			if !reuse("before any cycle") {
+				return
+			}
+		}
 		k.UseRun = r.Chance(1, 4) && k.Config.Cycles <= 5000
 		if k.UseRun {
 			var pm string
@@ -297,6 +325,21 @@ func runC04(c *Ctx) {
 				}
 				if apiDecided(s) && cyc >= steps {
 					break
+				}
+			}
+		}
+		if m <= 4096 && nw <= 4 && r.Chance(1, 5) {
+			if !reuse("after the battle") {
+				return
+			}
+			for cyc := 0; cyc < 3; cyc++ {
+				rec.addrs = rec.addrs[:0]
+				if p, msg := try(func() { s.RunCycle() }); p {
+					c.Violate("C04:panic:"+panicSite(msg), fmt.Sprintf("cycle %d after Reset: %s", cyc, msg), k.describe())
+					return
+				}
+				if !check(fmt.Sprintf("after Reset and cycle %d", cyc), true) {
+					return
 				}
 			}
 		}
